@@ -260,6 +260,14 @@ func main() {
 	small := flag.Bool("small", false, "reduced pool (quick tier)")
 	nbands := flag.Int("bands", 24, "magnitude bands 2^20..2^1023: an integral float with a random mantissa, the equal Int and their neighbours")
 	flag.Parse()
+	defer func() {
+		// a host panic anywhere (e.g. inside Hash() during a dict insertion) is an observation, not a crash
+		if e := recover(); e != nil {
+			violate("host-panic", fmt.Sprint("host panic: ", e))
+			hx.Emit(map[string]any{"kind": "stats", "pool": 0, "pairs": 0, "triples_checked": 0, "violations": nviol, "limit": starlark.CompareLimit, "aborted": true})
+			hx.Flush()
+		}
+	}()
 	r := hx.NewRand(*seed)
 	thread := &starlark.Thread{Name: "c11"}
 
@@ -643,17 +651,25 @@ func main() {
 		}
 		d := starlark.NewDict(1)
 		s := starlark.NewSet(1)
-		if err := d.SetKey(items[i].v, starlark.MakeInt(1)); err != nil {
-			violate("dict-insert", err.Error(), i)
+		if msg := guard(func() error { return d.SetKey(items[i].v, starlark.MakeInt(1)) }); msg != "" {
+			violate("dict-insert", msg, i)
 			continue
 		}
-		s.Insert(items[i].v)
+		if msg := guard(func() error { return s.Insert(items[i].v) }); msg != "" {
+			violate("set-insert", msg, i)
+			continue
+		}
 		drow := make([]byte, n)
 		srow := make([]byte, n)
 		for j := range items {
-			_, found, err := d.Get(items[j].v)
+			var found, f2 bool
+			var err, err2 error
+			if msg := guard(func() error { _, found, err = d.Get(items[j].v); f2, err2 = s.Has(items[j].v); return nil }); msg != "" {
+				violate("dict-lookup", msg, i, j)
+				drow[j], srow[j] = 'P', 'P'
+				continue
+			}
 			drow[j] = tf(found, err)
-			f2, err2 := s.Has(items[j].v)
 			srow[j] = tf(f2, err2)
 			if items[j].hash != nil {
 				want := at(i, j, oEQ)
@@ -681,14 +697,18 @@ func main() {
 			if isnew {
 				reps = append(reps, i)
 			}
-			d.SetKey(items[i].v, starlark.MakeInt(i))
+			if msg := guard(func() error { return d.SetKey(items[i].v, starlark.MakeInt(i)) }); msg != "" {
+				violate("dict-insert", msg, i)
+			}
 		}
 		var missing []int
 		for i := range items {
 			if items[i].hash == nil || items[i].depth > limit {
 				continue
 			}
-			if _, found, _ := d.Get(items[i].v); !found {
+			found := false
+			guard(func() error { _, found, _ = d.Get(items[i].v); return nil })
+			if !found {
 				missing = append(missing, i)
 			}
 		}
@@ -919,6 +939,19 @@ func main() {
 	}
 	hx.Emit(map[string]any{"kind": "stats", "pool": n, "pairs": n * n, "triples_checked": ntr, "violations": nviol, "limit": limit})
 	hx.Flush()
+}
+
+// guard runs f; a returned error or a host panic is reported as a message
+func guard(f func() error) (msg string) {
+	defer func() {
+		if e := recover(); e != nil {
+			msg = fmt.Sprint("host panic: ", e)
+		}
+	}()
+	if err := f(); err != nil {
+		return err.Error()
+	}
+	return ""
 }
 
 func fmtH(h *uint32) string {
